@@ -288,3 +288,18 @@ def run_driver(name, args, stdin=None, timeout=1800, race=False, env_extra=None)
     except subprocess.TimeoutExpired:
         raise ToolError("driver %s timed out after %ds" % (name, timeout))
     return p
+
+
+def unescape_tla(s):
+    return s.replace('\\"', '"').replace("\\\\", "\\")
+
+
+def parse_div(out):
+    """DIV records printed by the trace monitors: PrintT("DIV " \\o ToJson(record)) -> list of dicts
+    with keys l, b, div (set), bad (set), note. Strings are printed on one line whatever their length."""
+    recs = []
+    for ln in out.splitlines():
+        if ln.startswith('"DIV ') and ln.endswith('"'):
+            r = json.loads(unescape_tla(ln[5:-1]))
+            recs.append({"line": int(r["l"]), "beh": int(r["b"]), "div": set(r["div"]), "bad": set(r["bad"]), "note": r.get("note", "")})
+    return recs
